@@ -28,6 +28,8 @@ def run(ctx):
     from .c02 import vectorize_once
     vectorize_once(ctx, 'C01.R3')       # a per-well transfer applied twice debits / credits the shared side twice
     ownership(ctx)
+    from .c13 import distinct_wells
+    distinct_wells(ctx, 'C01.R3')       # wells that are one object all change when one of them receives something
     alias_writeback(ctx)
     # two regions of one plate are updated through the one current plate object: both operands of a recipe transfer
     # must be that object (a private copy loses one side's update when the results are written back by name)
